@@ -122,6 +122,21 @@ impl ValSpec {
 }
 
 fn val_spec() -> impl Strategy<Value = ValSpec> {
+	// a third of the values come from a menu of six, so that a key is often given back EXACTLY the bytes it
+	// held before (in the same batch, in a child, in a later batch) — a write that changes nothing relative to
+	// some earlier state is where write-avoidance shortcuts go wrong
+	let menu = prop_oneof![
+		Just(ValSpec { len: 3000, tag: 1 }),
+		Just(ValSpec { len: 3000, tag: 2 }),
+		Just(ValSpec { len: 2048, tag: 3 }),
+		Just(ValSpec { len: 2047, tag: 3 }),
+		Just(ValSpec { len: 10, tag: 4 }),
+		Just(ValSpec { len: 65536, tag: 5 }),
+	];
+	prop_oneof![2 => val_spec_free(), 1 => menu]
+}
+
+fn val_spec_free() -> impl Strategy<Value = ValSpec> {
 	(
 		prop_oneof![
 			6 => 1u32..200,
